@@ -35,7 +35,7 @@ fn kind_class(c: &Comm) -> String {
 
 pub fn run(ctx: &Ctx, rep: &mut Report) {
     let mut r = ctx.rng("c16");
-    let contexts = if ctx.thorough() { 16 } else { 1 };
+    let contexts = if ctx.thorough() { 16 } else { 2 };
     for &t in &[1u8, 2, 3, 4, 9, 11, 18] {
         let has_selector = t == 9 || t == 18;
         let (start, width) = if has_selector { (148usize, 20usize) } else { (149usize, 19usize) };
